@@ -62,7 +62,8 @@ InlineFacts(bytes) ==
                 bpc == get(InKeyBPC, InKeyBits)
             IN [n |-> Len(imgs), cs |-> IF cs.k = "name" THEN cs.v ELSE <<>>, bpc |-> IF IntSmall(bpc) THEN IntVal(bpc) ELSE 0,
                 len |-> it.re - it.rs + 1, first |-> IF it.re >= it.rs THEN bytes[it.rs] ELSE 0 - 1, idws |-> bytes[it.rs - 1],
-                wsbefore |-> {bytes[i] : i \in 1..(it.rs - 1)} \cap {0, 12} # {}]
+                wsbefore |-> {bytes[i] : i \in 1..(it.rs - 1)} \cap {0, 12} # {},
+                keys |-> SetToSeq(DOMAIN it.d), mask |-> get(InKeyIM, InKeyImageMask) = OBool(TRUE)]
 
 -----------------------------------------------------------------------------
 (* JSON (harness wire format) -> operations: [{op: bytes, args: [obj...]}...] *)
